@@ -29,6 +29,8 @@ func runC09(c *Ctx) {
 	c09R3(c)
 	indexResolution(c, "R4")
 	memberResolutionOrder(c, "R8")
+	c.shared("R13", "C06/R3", "`a op= b` means `a = a op b` with b the whole right-hand expression: the assignment parselets parse their right side from the assignment level, and the rewriter builds left = left OP right from it", keyHas("rbp", "desugar", "statement-level-expression"), runC06)
+	c.shared("R12", "C10/R6", "an index assignment changes exactly the addressed location: every evaluation of a literal builds cells of its own — nothing evaluated earlier is remembered in the evaluator or in the syntax tree and handed out again", keyHas("evaluator-state", "syntax-tree-store", "interpreter-state"), func(s *Ctx) { interpreterState(s, "R6") })
 	c.shared("R11", "C08/R4", "assigning to a parameter changes the callee's own cell only: every declared parameter — supplied or not — is bound to a fresh cell in the callee's frame, so the name cannot resolve to a variable of a calling frame", nil, c08R4)
 	c.shared("R10", "C02/R4", "assigning to $ (or growing it) in a pattern rule changes the document: for an array root $ is the element's own cell, not a copy", keyHas("array-root-per-element"), c02R4)
 	if es := c.P.LangFunc("(*Evaluator).evalStatement"); es != nil {
